@@ -55,12 +55,31 @@ def run(ck, replay=None):
             log = tp.tmp_log("c06-" + scen)
             jobs.append(tp.sysmon_job(exe, scen, ck.seed + 700 + i, 6, log, timeout_s=8))
             meta.append(("sysmon-fault", m, r, scen, log))
+    # second opinion: memcheck on the static probe (sees accesses to unmapped stacks / freed mappings;
+    # the custom allocator's blocks are opaque to it, so the quarantine is switched off)
+    import shutil
+    if shutil.which("valgrind"):
+        for m, r, exe in exes:
+            if m == "static":
+                for scen, n in (("cells", 6 if quick else 40), ("mixed", 60 if quick else 600)):
+                    jobs.append(dict(argv=["valgrind", "-q", "--error-exitcode=9", exe, scen, str(ck.seed + 900), str(n), "0"],
+                                     timeout=300 if quick else 3000))
+                    meta.append(("valgrind", m, r, scen, None))
     res = vlib.run_parallel(jobs)
     lifecycle = dict(threads=0, stacks_unmapped_once_by_owner=0, thread_side_frees=0, handle_side_frees=0)
     for (how, m, r, scen, log), rr in zip(meta, res):
         label = "%s %s/%s %s" % (how, m, "release" if r else "debug", scen)
         text = tp.filter_lines(rr["out"], "C06")
         rr2 = dict(rr, out=text)
+        if how == "valgrind":
+            errs = [l for l in rr["err"].splitlines() if ("Invalid " in l or "uninitialised" in l or "Process terminating" in l)]
+            if rr["rc"] == 9 or errs:
+                ck.violation("C06/valgrind/" + ("invalid-access" if any("Invalid" in e for e in errs) else "error"),
+                             dict(label=label, report=[l for l in rr["err"].splitlines() if "unhandled amd64" not in l and "README_MISSING" not in l and "write your own" not in l and "consider this a bug" not in l and "bug_reports" not in l][:40]))
+            elif ck.consume_result(rr2, label):
+                ck.note_distinct("valgrind/%s" % scen)
+                ck.count("valgrind_runs")
+            continue
         if how == "native":
             if rr["rc"] is not None and rr["rc"] < 0:
                 # a crash while blocks are recycled is what a double free / use after free looks like
